@@ -7,6 +7,28 @@ from ..driver import Monitor, FX, _TAP_STATE
 TOL = 1e-9
 
 
+def ref_depletion(b):
+    """Reference for 'estimated root-zone depletion': water missing from field capacity in the root zone (at most the total available
+    water), plus today's evaporation and transpiration demand, minus rain net of runoff, minus water held above field capacity.
+    Straight sums without the per-compartment rounding of the implementation (hence the tolerance at the call site)."""
+    prof, crop = b["prof"], b["Crop"]
+    th = np.array(b["NewCond_th"], dtype=float)
+    dz = np.array(prof.dz, dtype=float)
+    bot = np.cumsum(dz)
+    top = bot - dz
+    rd = round(max(float(b["NewCond_Zroot"]), float(crop.Zmin)), 2)
+    frac = np.clip((np.minimum(bot, rd) - top) / dz, 0.0, 1.0)
+    w = frac * 1000.0 * dz
+    wr = max(0.0, float((w * th).sum()))
+    wfc = float((w * np.array(prof.th_fc, dtype=float)).sum())
+    wwp = float((w * np.array(prof.th_wp, dtype=float)).sum())
+    taw = max(wfc - wwp, 0.0)
+    dr = min(wfc - wr, taw)
+    abv = max(wr - wfc, 0.0)
+    dep = dr + float(b["NewCond_Tpot"]) + float(b["NewCond_Epot"]) - float(b["Rain"]) + float(b["Runoff"]) - abv
+    return {"D": dep, "TAW": taw, "n": int((frac > 0).sum())}
+
+
 class C13Irrigation(Monitor):
     pid = "C13"
     taps = ("irrigation", "infiltration")
@@ -19,6 +41,11 @@ class C13Irrigation(Monitor):
     def before(self, name, bound, args, kwargs):
         if name == "irrigation":
             self.call = {"in": dict(bound) if bound is not None else None}
+            try:
+                self.call["ref"] = ref_depletion(bound) if bound is not None else None
+            except Exception as e:  # noqa: BLE001 - the reference must never break the run
+                self.call["ref"] = None
+                self.call["ref_error"] = repr(e)
         elif name == "infiltration":
             self.infil_irr = (bound or {}).get("Irr") if bound is not None else None
 
@@ -112,6 +139,15 @@ class C13Irrigation(Monitor):
                 ctx.hit("net_irrigation_day")
             return
         # ---- surface strategies 1, 2, 3, 5 ------------------------------------------------------
+        if call and call.get("ref") and call.get("out") is not None and m in (1, 2):
+            ref = call["ref"]
+            tol = 0.02 * (ref["n"] + 1)
+            D_, T_ = float(call["out"][0]), float(call["out"][1])
+            if abs(D_ - ref["D"]) > tol or abs(T_ - ref["TAW"]) > tol:
+                ctx.violate("depletion-estimate", t, observed={"depletion": D_, "TAW": T_}, expected={"depletion": ref["D"], "TAW": ref["TAW"], "tol": tol})
+            ctx.hit("depletion_estimate_checked")
+        elif call and call.get("ref_error"):
+            ctx.notes.append("reference depletion failed: " + call["ref_error"][:80])
         if call and call.get("out") is not None:
             ret_irr = float(call["out"][3])
             if ret_irr != irr:
